@@ -20,6 +20,10 @@ fn main() {
     }
     util::silent_panics();
     let suite = args[1].clone();
+    if suite == "bombchild" {
+        tamper::bomb_child(&args[2]);
+        return;
+    }
     if suite == "replay" {
         let line = args[2..].join(" ");
         let r = match line.split(' ').next().unwrap_or("") {
@@ -27,7 +31,7 @@ fn main() {
             "planner" | "clone" => clone::replay(&line),
             "protodec" | "tryinit" | "compress" => archive::replay(&line),
             "http" => http::replay(&line),
-            "corrupt" | "hostile" => tamper::replay(&line),
+            "corrupt" | "hostile" | "bomb" => tamper::replay(&line),
             k => Err(format!("unknown replay kind {}", k)),
         };
         match r {
